@@ -180,6 +180,29 @@ def hostile_cases(rng, tier):
                 for rd in ({"kind": "slice"}, {"kind": "chunks", "sched": [7]}):
                     op = "de_sum"
                     out.append(({"op": op, "schema": {"nodes": G}, "bytes": list(flood), "reader": rd, "limits": lim}, G, f"{name} flooded"))
+    # every leaf kind (and one container of it) x ALL byte strings of length <= 3 over a boundary alphabet
+    import itertools
+    P, F = scopes.prim, scopes.fixed
+    leaves = [P("null"), P("boolean"), P("int"), P("long"), P("float"), P("double"), P("bytes"), P("string"), P("string", lt="uuid"),
+              P("int", lt="date"), P("long", lt="timestamp-micros"), F("ns.F2", 2), F("F0", 0), scopes.enum("E", [[65], [66], [67]]),
+              P("bytes", lt="decimal", prec=10, scale=2), F("D2", 2, lt="decimal", prec=4, scale=1), F("D0", 0, lt="decimal", prec=4, scale=1),
+              P("bytes", lt="big-decimal"), F("Du", 12, lt="duration")]
+    alphabet = [0, 1, 2, 3, 4, 24, 127, 128, 255]
+    strings = [list(t) for n in range(0, 4) for t in itertools.product(alphabet, repeat=n)]
+    if tier == "quick":
+        strings = [b for b in strings if len(b) < 3 or (b[0] in (0, 2, 4, 128, 255) and b[2] in (0, 1, 128, 255))]
+    for leaf in leaves:
+        for wi, wrap in enumerate((lambda x: x, scopes.arr, lambda x: scopes.un(scopes.prim("null"), x))):
+            if wi == 2 and leaf["k"] == "null":
+                continue        # [null, null] is not a schema
+            try:
+                G = scopes.flatten(wrap(leaf))["nodes"]
+            except Exception:
+                continue
+            for bi, b in enumerate(strings):
+                rd = {"kind": "slice"} if bi % 3 else {"kind": "chunks", "sched": [1]}
+                out.append(({"op": "de", "schema": {"nodes": G}, "bytes": b, "reader": rd, "limits": {"depth": 8, "max_seq": 100, "max_alloc": 1 << 16}}, G,
+                            "leaf kind x all short byte strings"))
     # max_alloc_size around a field length (reader input)
     strs = scopes.flatten(scopes.rec("S", [("a", scopes.prim("string")), ("b", scopes.prim("bytes"))]))["nodes"]
     for n in (0, 1, 7, 8, 9, 100):
